@@ -4,6 +4,7 @@ import (
 	"context"
 	"fmt"
 	"hash/fnv"
+	"os"
 	"reflect"
 	"regexp"
 	"sort"
@@ -256,14 +257,14 @@ func init() {
 	engine.Register(&engine.Prop{
 		ID: "C13",
 		Shards: func(th bool) []string {
-			s := []string{"paths", "cross", "ctors", "env"}
+			s := []string{"paths", "cross", "ctors", "env", "seq"}
 			for i := 0; i < c13NOps(); i++ {
 				s = append(s, fmt.Sprintf("hist:cold:%d", i), fmt.Sprintf("hist:warm:%d", i))
 			}
 			return s
 		},
 		Run:  c13Run,
-		Rule: "programs: a 35-template corpus covering every construct + a family of hash literals (1..4 entries, identifier/string/duplicate keys, side-effecting values), map loops, data maps, method calls on receivers of two dynamic types, a time value printed with and without a TIME_FORMAT in the context, a template that renders itself as a partial and fails inside a helper block of the inner execution, empty array/hash literals that are kept and written to, failing templates and templates that do not parse. (paths) every program x 2 data sets: fresh parse, 3 repeated executions of one parsed template, Clone, cache cold, cache warm, cache off again — all (out, err, side-effect log) equal; deep structural hash (reflection over every field, cycle-safe) of the parsed program equal before and after every execution. (cross) every probe template (contentOf of every block name the corpus defines, unknown variables / functions, a time, a partial, a regexp match) renders the same before and after every corpus program was executed with fresh contexts, cache off and on - also for a probe that was parsed before and stays alive (its program hash, its executions and its Clone are unchanged by the other template's parse); (paths, cache) a text differing only in surrounding whitespace is another template: from the warm cache it renders what a fresh parse of it renders. (ctors) top-level bindings made by an execution whose context came from any of 6 constructors (and BuffaloRenderer with nil data) are invisible to later executions in fresh contexts from all 6; every history of <=4 calls of pluralize / singularize over 4 words gives each call one result. (env) every map-iteration call made during an execution is an environment choice point (runtime overlay): all single deviations (two in thorough) from the default order give the same (out, err, log); for-over-map output is compared as a multiset. (hist) explicit enumeration of histories over {fresh parse+exec, exec of a long-lived template, Clone+exec, Render through the cache, toggle CacheEnabled, CacheSet} x 6 templates (a partial whose feeder text depends on the context, ok with an empty hash literal that is written to, failing inside a block on line 3, failing at top level, method call, one that does not parse) x 2 data sets, from a cold and a warm cache; after every operation the result equals the pristine reference for (text, data), every live template's program hash is unchanged and a cached template was parsed from its key. Non-trivial: histories with >=2 operations / programs with a map or side effect.",
+		Rule: "programs: a 35-template corpus covering every construct + a family of hash literals (1..4 entries, identifier/string/duplicate keys, side-effecting values), map loops, data maps, method calls on receivers of two dynamic types, a time value printed with and without a TIME_FORMAT in the context, a template that renders itself as a partial and fails inside a helper block of the inner execution, empty array/hash literals that are kept and written to, failing templates and templates that do not parse. (seq) every sequence of <=3 renders over 10 (template, data) pairs whose result is known outright - envOr / env of a variable that is not set (a name of its own per sequence) with different defaults, one path template over receivers that are different struct types printing the same type name with their fields in different order (and a map, a pointer, an embedding struct), cache off and on: every render gives its own known result whatever was rendered before it in the process. (paths) every program x 2 data sets: fresh parse, 3 repeated executions of one parsed template, Clone, cache cold, cache warm, cache off again — all (out, err, side-effect log) equal; deep structural hash (reflection over every field, cycle-safe) of the parsed program equal before and after every execution. (cross) every probe template (contentOf of every block name the corpus defines, unknown variables / functions, a time, a partial, a regexp match) renders the same before and after every corpus program was executed with fresh contexts, cache off and on - also for a probe that was parsed before and stays alive (its program hash, its executions and its Clone are unchanged by the other template's parse); (paths, cache) a text differing only in surrounding whitespace is another template: from the warm cache it renders what a fresh parse of it renders. (ctors) top-level bindings made by an execution whose context came from any of 6 constructors (and BuffaloRenderer with nil data) are invisible to later executions in fresh contexts from all 6; every history of <=4 calls of pluralize / singularize over 4 words gives each call one result. (env) every map-iteration call made during an execution is an environment choice point (runtime overlay): all single deviations (two in thorough) from the default order give the same (out, err, log); for-over-map output is compared as a multiset. (hist) explicit enumeration of histories over {fresh parse+exec, exec of a long-lived template, Clone+exec, Render through the cache, toggle CacheEnabled, CacheSet} x 6 templates (a partial whose feeder text depends on the context, ok with an empty hash literal that is written to, failing inside a block on line 3, failing at top level, method call, one that does not parse) x 2 data sets, from a cold and a warm cache; after every operation the result equals the pristine reference for (text, data), every live template's program hash is unchanged and a cached template was parsed from its key. Non-trivial: histories with >=2 operations / programs with a map or side effect.",
 		Bound: func(th bool) string {
 			if th {
 				return "histories of length <=4 over the full 56-operation alphabet; all pairs of map-order deviations"
@@ -635,6 +636,8 @@ func c13Run(t *engine.T, shard string) {
 				})
 			}
 		}
+	case "seq":
+		c13Seq(t)
 	case "ctors":
 		// whichever way the context of an execution was built, names it binds at its top level stay in that context
 		setters := []string{`<% let title9 = "T" %>`, `<% contentFor("leak9") { %>x<% } %>`, `<% let f9 = fn() { return 1 } %>`, `<% let len = "mine" %>`}
@@ -783,4 +786,102 @@ func c13Run(t *engine.T, shard string) {
 			}
 		}
 	}
+}
+
+// c13Seq: renders whose result is known outright, in every order: what one render computed - about a type, an
+// environment variable, a receiver - does not show in the next.
+func c13RowA() interface{} {
+	type Row struct{ Title, Owner string }
+	return Row{"T", "O"}
+}
+
+func c13RowB() interface{} {
+	type Row struct{ Owner, Title string }
+	return Row{"O", "T"}
+}
+
+func c13RowC() interface{} {
+	type Row struct {
+		Extra        int
+		Title, Owner string
+	}
+	return &Row{7, "T", "O"}
+}
+
+func c13RowD() interface{} {
+	type Inner struct{ Owner, Title string }
+	type Row struct {
+		Inner
+		Pad string
+	}
+	return Row{Inner{"O", "T"}, "p"}
+}
+
+var c13SeqN int
+
+func c13Seq(t *engine.T) {
+	type op struct {
+		name, src, want string
+		fails           bool
+		data            func() interface{}
+	}
+	rowT := `<%= r.Title %>|<%= r.Owner %>`
+	ops := []op{
+		{"envOr first", `<%= envOr("KEY", "first") %>`, "first", false, nil},
+		{"envOr second", `<%= envOr("KEY", "second") %>`, "second", false, nil},
+		{"env", `<%= env("KEY") %>`, "", true, nil},
+		{"envOr empty", `[<%= envOr("KEY", "") %>]`, "[]", false, nil},
+		{"envOr set", `<%= envOr("VERIF_C13_SET", "dflt") %>|<%= env("VERIF_C13_SET") %>`, "is-set|is-set", false, nil},
+		{"row A", rowT, "T|O", false, c13RowA},
+		{"row B", rowT, "T|O", false, c13RowB},
+		{"row C", rowT, "T|O", false, c13RowC},
+		{"row D", rowT, "T|O", false, c13RowD},
+		{"row map", `<%= r["Title"] %>|<%= r["Owner"] %>`, "T|O", false, func() interface{} { return map[string]string{"Title": "T", "Owner": "O"} }},
+	}
+	os.Setenv("VERIF_C13_SET", "is-set")
+	var rec func(seq []int)
+	rec = func(seq []int) {
+		if len(seq) > 0 {
+			seq := append([]int{}, seq...)
+			var names []string
+			for _, i := range seq {
+				names = append(names, ops[i].name)
+			}
+			for _, cache := range []bool{false, true} {
+				cache := cache
+				t.Case(fmt.Sprintf("seq cache=%v %s", cache, strings.Join(names, " ; ")), len(seq) > 1, func() (string, *engine.Fail) {
+					c13SeqN++
+					key := fmt.Sprintf("VERIF_C13_UNSET_%d_%d", os.Getpid(), c13SeqN)
+					plush.VerifCacheReset()
+					plush.CacheEnabled = cache
+					defer func() { plush.CacheEnabled = false; plush.VerifCacheReset() }()
+					for n, i := range seq {
+						o := ops[i]
+						ctx := plush.NewContext()
+						if o.data != nil {
+							ctx.Set("r", o.data())
+						}
+						out, err := plush.Render(strings.Replace(o.src, "KEY", key, -1), ctx)
+						if o.fails {
+							if err == nil {
+								return "", engine.Failf("nondeterministic", "render %d (%s) must fail (the variable is not set), after %v it rendered %q", n+1, o.name, names[:n], out)
+							}
+							continue
+						}
+						if err != nil || out != o.want {
+							return "", engine.Failf("nondeterministic", "render %d (%s) renders %q on its own, after %v it rendered %q / %v", n+1, o.name, o.want, names[:n], out, err)
+						}
+					}
+					return "independent", nil
+				})
+			}
+		}
+		if len(seq) == 3 {
+			return
+		}
+		for i := range ops {
+			rec(append(seq, i))
+		}
+	}
+	rec(nil)
 }
